@@ -92,7 +92,8 @@ def run_task(task):
         res = E.run_execution(main, strat, granularity=task.get("gran", "sync"),
                               visible=o.get("visible"), max_steps=o.get("max_steps", 30000),
                               horizon=o.get("horizon", 10 ** 8), ops_log=o.get("ops_log", False),
-                              setup=o.get("setup"), lock_log=bool(task.get("lock_log")))
+                              setup=o.get("setup"), lock_log=bool(task.get("lock_log")),
+                              clock_bump=task.get("clock_bump"))
         if res.failure and res.failure[0] == "wallclock-timeout":
             _POISONED[0] = "wall-clock limit hit by %s %s" % (task.get("scen"), json.dumps(task.get("params"))[:300])
         events = list(res.events)
